@@ -12,10 +12,14 @@ trap 'rm -rf "$snap"' EXIT
 miss=0
 for d in seeded/*/; do
   name=$(basename "$d")
+  # optional filter: only the seeds whose name matches $1 (a grep -E pattern)
+  if [ -n "${1:-}" ] && ! echo "$name" | grep -qE "$1"; then continue; fi
   chk=$(python3 - "$d/meta.json" <<'PY'
 import json,re,sys
 m=json.load(open(sys.argv[1]))
-hits=re.findall(r'vcheck (C\d\d) quick:? ?VIOLATION', m['checks_run'])
+# the last "vcheck Cxx quick" segment of the note that ends in a VIOLATION verdict
+segs=re.split(r'(?=vcheck C\d\d quick)', m['checks_run'])
+hits=[re.match(r'vcheck (C\d\d) quick', s).group(1) for s in segs if s.startswith('vcheck') and 'VIOLATION' in s]
 print(hits[-1] if hits else "")
 PY
 )
